@@ -2,6 +2,7 @@
 # merge_agents.sh <agent>...  — cherry-pick each agent's repo commits onto /repo main, merge its verif branch,
 # rewrite fix hashes, refresh the hook-commit list, rebuild, regenerate the manifest.
 cd /verif || exit 1
+git add -A; git commit -qm "work tree before merge" >/dev/null 2>&1
 [ -n "$(git -C /repo status --porcelain --untracked-files=no)" ] && { echo "/repo not clean"; exit 1; }
 MAP=""
 for a in "$@"; do
